@@ -32,7 +32,7 @@ TB = [
 ]
 ASSUME = [
     "str.lower is modelled on ASCII; case flips touch ASCII letters only",
-    "the directory form is presented to the model as the list of files below the directory (a relationship target that names a directory is outside the model)",
+    "the directory form is presented to the model as the files below the directory plus its sub-directories as (empty) members, because _DirPkgReader.__contains__ is os.path.exists",
     "corrupting bytes in the middle of a zip (CRC / zlib errors) is not in the property's list and is not injected; truncation removes the end-of-central-directory record",
     "access to prs.slides after opening is compared with the model (rename_slide_parts) but is not part of the oracle: the property speaks about opening",
 ]
@@ -60,6 +60,9 @@ def outcome_name(e):
     return "err:" + exc_name(e)
 
 
+DIR_COUNTS_DIRS = [True]     # set from gen/c01_meta.json in run()
+
+
 def materialise(members, zip_fault, form, tmp):
     """-> (argument for Presentation, reader outcome kind for the model, members the reader sees)"""
     if form == "nopath":
@@ -69,7 +72,8 @@ def materialise(members, zip_fault, form, tmp):
         shutil.rmtree(root, ignore_errors=True)
         os.makedirs(root)
         oc.write_dir(members, root)
-        return root, "m", members
+        # _DirPkgReader.__contains__ is os.path.exists: directories of the tree count as present
+        return root, "m", members + ([(dname, b"") for dname in oc.dir_entries(members)] if DIR_COUNTS_DIRS[0] else [])
     data = oc.zip_bytes(members)
     if zip_fault is not None:
         if zip_fault[0] == "truncate":
@@ -145,7 +149,18 @@ def oracle(ck, members, zip_fault, form, faults, r, detail, meta, rec):
             ck.violation("refusal-class", "expected %s, Presentation() gave %s (%s) for faults %r as %s" % (exp, got, detail, faults, form), rec)
         return
     if got != "ok":
-        ck.violation("recoverable-not-opened", "a recoverable irregular package was refused: %s (%s), faults %r as %s" % (got, detail, faults, form), rec)
+        sig = "recoverable-not-opened"
+        if form == "dir":
+            dirs = {"/" + x for x in oc.dir_entries(members)}
+            d = oc.as_dict(members)
+            for name, data in members:
+                src = oc.source_of_rels(name)
+                rl = oc.decode_rels(data) if src is not None else None
+                if rl and any(m != "External" and oc.resolve_ref(oc.base_dir(src), t) in dirs for _i, _t, t, m in rl):
+                    sig = "dir-form-target-names-directory"
+        ck.violation(sig, "a recoverable irregular package was refused: %s (%s), faults %r as %s%s" % (
+            got, detail, faults, form,
+            " (an internal relationship target resolves to a directory of the tree; _DirPkgReader.__contains__ uses os.path.exists)" if sig != "recoverable-not-opened" else ""), rec)
         return
     krels, parts = exp[1]
     _main, (ik, ip), _ren = r[1], r[2], r[3]
@@ -182,6 +197,21 @@ def oracle(ck, members, zip_fault, form, faults, r, detail, meta, rec):
                 if b in want and a != want[b]:
                     ck.violation("slide-rename", "slide part %s should be renamed %s on first access of prs.slides, is %s" % (b, want[b], a), rec)
                     return
+
+
+def same_loaded(a, b):
+    """Two implementation observations ('ok', main, graph, renamed) describe the same loaded
+    package: same package relationships, same parts (as a set) with equal type, payload, rels."""
+    if a[1] != b[1] or sorted(a[2][0]) != sorted(b[2][0]):
+        return "main part or package relationships differ"
+    pa = {n: (ct, blob, sorted(rels)) for n, ct, blob, rels in a[2][1]}
+    pb = {n: (ct, blob, sorted(rels)) for n, ct, blob, rels in b[2][1]}
+    if set(pa) != set(pb):
+        return "parts differ: only irregular %r, only regularised %r" % (sorted(set(pa) - set(pb)), sorted(set(pb) - set(pa)))
+    for n in pa:
+        if pa[n] != pb[n]:
+            return "part %s differs" % n
+    return None
 
 
 def rec_for(deck, faults, zip_fault, form):
@@ -238,13 +268,20 @@ def run_one(case, tmp, pay):
         form = "stream"
     arg, kind, seen = materialise(members, zip_fault, form, tmp)
     r, detail = impl_open(arg)
+    if zip_fault is not None and kind == "m":
+        # zipfile still reads the damaged bytes as a zip (e.g. a truncated deck that ends inside an
+        # embedded workbook whose own end-of-central-directory record survives): the reader hands
+        # over those members, and the property is judged on them
+        members, zip_fault = seen, None
     if kind == "m":
         seen_d = list(oc.as_dict(seen).items())
         rids = oc.slide_rids(seen_d)
-        wire = ["pres", "m"] + oc.wire_package(seen_d, pay) + [str(len(rids))] + rids
+        pkg_fields = oc.wire_package(seen_d, pay)
+        wire = ["pres", "m"] + pkg_fields + [str(len(rids))] + rids
     else:
+        pkg_fields = None
         wire = ["pres", kind]
-    return members, form, r, detail, wire
+    return members, form, r, detail, wire, pkg_fields, zip_fault
 
 
 def run(ck, tier, rng):
@@ -254,6 +291,7 @@ def run(ck, tier, rng):
                      {"theorem_or_correspondence": "translator tx_c01 (model regeneration)"}, concrete=False)
     ck.build = coq_build("C16", extra_targets=["gen/GenC01.vo"])
     meta = json.load(open(os.path.join(COQ, "gen", "c01_meta.json")))
+    DIR_COUNTS_DIRS[0] = bool(meta.get("dir_reader_counts_directories", True))
     decks = corpus()
     if tier == "quick":
         pref = [os.path.join(REPO, d) for d in QUICK_DECKS if os.path.exists(os.path.join(REPO, d))]
@@ -261,12 +299,13 @@ def run(ck, tier, rng):
     cases = gen_cases(tier, rng, decks)
     tmp = tempfile.mkdtemp(prefix="c16-")
     pay = oc.Payloads()
-    results, wires = [], []
+    results, wires, pkgs = [], [], []
     try:
         for case in cases:
-            members, form, r, detail, wire = run_one(case, tmp, pay)
+            members, form, r, detail, wire, pkg_fields, eff_zip_fault = run_one(case, tmp, pay)
             rel, _base, faults, zip_fault, _f = case
             results.append((members, form, r, detail))
+            pkgs.append(pkg_fields)
             wires.append(wire)
             klass = "+".join([f[0] for f in faults] + ([zip_fault[0]] if zip_fault else [])) or "regular"
             ck.count((rel, faults, zip_fault, form), bool(faults or zip_fault or form in ("dir", "nopath")), klass if len(faults) < 2 else "pair")
@@ -275,11 +314,33 @@ def run(ck, tier, rng):
             ck.dist["outcome:" + out_k] = ck.dist.get("outcome:" + out_k, 0) + 1
             if len(ck.samples) < 8 and faults and len(ck.samples) < 8 and (len(results) % 97 == 0):
                 ck.sample({"deck": rel, "faults": [list(f) for f in faults], "form": form, "outcome": out_k})
-            oracle(ck, members, zip_fault, form, faults, r, detail, meta, rec_for(rel, faults, zip_fault, form))
+            if eff_zip_fault is None and zip_fault is not None:
+                ck.dist["damaged-bytes-still-a-zip"] = ck.dist.get("damaged-bytes-still-a-zip", 0) + 1
+            oracle(ck, members, eff_zip_fault, form, faults, r, detail, meta, rec_for(rel, faults, zip_fault, form))
         concrete_before = len(ck.violations) + len(ck.known_hits)
         diffs, first = 0, None
         slide_access_errors = 0
+        reg_checked = reg_diffs = 0
         if ck.build.ok:
+            # C16_regularise on the implementation: opening the irregular package and opening its
+            # regularised form (computed by the model) give the same loaded package
+            reg_idx = [i for i, (pf, res) in enumerate(zip(pkgs, results)) if pf is not None and not isinstance(res[2], str)]
+            reg_out = run_model("C16", [["reg"] + pkgs[i] for i in reg_idx])
+            for i, line in zip(reg_idx, reg_out):
+                try:
+                    regm = oc.members_from_model(oc.parse_reg(line), pay)
+                except Exception:  # noqa
+                    continue
+                r2, _d = impl_open(io.BytesIO(oc.zip_bytes(regm)))
+                reg_checked += 1
+                why = "regularised form refused: %s" % r2 if isinstance(r2, str) else same_loaded(results[i][2], r2)
+                if why:
+                    reg_diffs += 1
+                    if reg_diffs <= 3:
+                        ck.notes.append("regularise: %s %r: %s" % (cases[i][0], cases[i][2], why))
+            if reg_diffs:
+                ck.violation("regularise", "opening an irregular package and opening its regularised form (model/Opc.v regularise) differ on %d of %d packages" % (reg_diffs, reg_checked),
+                             {"theorem_or_correspondence": "C16_regularise replayed on the implementation", "notes": ck.notes[-3:]}, concrete=False)
             model_out = run_model("C16", wires)
             for case, (members, form, r, detail), line in zip(cases, results, model_out):
                 pm = oc.parse_pres(line)
@@ -299,15 +360,16 @@ def run(ck, tier, rng):
                              dict(rec_for(first[0][0], first[0][2], first[0][3], first[1]),
                                   theorem_or_correspondence="correspondence Opc.v ~ api.Presentation / opc.package loader (theorems C16_* are about the model only)"),
                              concrete=False)
-        ck.broken_build(oracle_found_concrete=concrete_before > 0)
+        ck.broken_build(oracle_found_concrete=any(v["concrete"] for v in ck.violations))
     finally:
         shutil.rmtree(tmp, ignore_errors=True)
     return ck.finish(
-        rule="%d corpus decks; every single irregularity at every applicable location (dangling target per internal relationship, deleted rels item per source, case-flipped Default/Override per entry, unknown content type per Override, 3 kinds of extra members, slide parts renamed with gaps / reversed, removed core properties, wrong main content type x3, each mandatory member deleted), 5 truncations and 4 non-zip byte strings as stream and as path, missing path, stream / path / directory forms%s; non-trivial = anything but the unmodified deck as zip" % (
+        rule="%d corpus decks; every single irregularity at every applicable location (dangling target per internal relationship, first internal Target emptied per rels item, deleted rels item per source, case-flipped Default/Override per entry, unknown content type per Override, 3 kinds of extra members, slide parts renamed with gaps / reversed, removed core properties, wrong main content type x3, each mandatory member deleted), 5 truncations and 4 non-zip byte strings as stream and as path, missing path, stream / path / directory forms%s; non-trivial = anything but the unmodified deck as zip" % (
             len(decks), "; 120 sampled pairs per deck" if tier == "thorough" else ""),
         trusted_base=TB, assumptions=ASSUME,
         extra={"correspondence_diffs": diffs, "exhaustive": False, "unmodelled": meta.get("unmodelled", []),
-               "opened_but_prs_slides_raises": slide_access_errors},
+               "opened_but_prs_slides_raises": slide_access_errors,
+               "regularise_replayed_on_impl": reg_checked, "regularise_diffs": reg_diffs},
     )
 
 
@@ -318,9 +380,13 @@ def replay(rec):
     faults = [tuple(f) for f in inp["faults"]]
     zf = tuple(inp["zip_fault"]) if inp.get("zip_fault") else None
     tmp = tempfile.mkdtemp(prefix="c16-replay-")
+    try:
+        DIR_COUNTS_DIRS[0] = bool(json.load(open(os.path.join(COQ, "gen", "c01_meta.json"))).get("dir_reader_counts_directories", True))
+    except Exception:  # noqa
+        pass
     pay = oc.Payloads()
     try:
-        members, form, r, detail, wire = run_one((inp["deck"], base, faults, zf, inp["form"]), tmp, pay)
+        members, form, r, detail, wire, _pf, _zf = run_one((inp["deck"], base, faults, zf, inp["form"]), tmp, pay)
     finally:
         shutil.rmtree(tmp, ignore_errors=True)
     line = run_model("C16", [wire])[0]
